@@ -921,18 +921,34 @@ def final_player_game(rng):
     return finish(rewards, players, xtl, finals, {"family": "final_player"})
 
 
-ODD_LABELS = ["{north}", "turn{90}", "{", "}", "{0}", "{}", "%s", "%(x)s", "100%", "a\\b", "it's", 'say "x"', "a\nb", "a,b", "[x]", "$HOME", "\u00e9t\u00e9"]
+ODD_LABELS = ["{north}", "turn{90}", "{", "}", "{0}", "{}", "%s", "%(x)s", "100%", "a\\b", "it's", 'say "x"', "a\nb", "a,b", "[x]", "$HOME"]
+# labels that are DIFFERENT strings but look alike to code that strips, case-folds or Unicode-normalises them;
+# the members of a group are handed out together so that they meet inside one state
+ODD_GROUPS = [[" left", "left", "left "], ["\tup", "up"], ["se\u00f1al", "sen\u0303al"], ["\u00e9t\u00e9", "e\u0301te\u0301"],
+              ["\u212b", "\u00c5"], ["stra\u00dfe", "strasse"], ["\uff41", "a"], ["x\u200b", "x"], ["None", "none"], ["0", "00"]]
+
+
+def odd_label_map(g, rng):
+    """injective map from the game's action names to odd legal strings; look-alike groups stay together"""
+    names = sorted({a for pl, row in zip(g["players"], g["transition_list"]) if pl != PR for a, _ in row})
+    groups = [list(x) for x in ODD_GROUPS] + [[x] for x in ODD_LABELS]
+    rng.shuffle(groups)
+    # look-alike groups first half of the time
+    if rng.random() < 0.6:
+        groups.sort(key=lambda x: -len(x))
+        k = rng.randrange(1, 6)
+        groups = groups[k:] + groups[:k] if rng.random() < 0.3 else groups
+    pool = [x for grp in groups for x in grp]
+    if len(names) > len(pool):
+        pool += [f"{{k{i}}}" for i in range(len(names) - len(pool))]
+    return dict(zip(names, pool))
 
 
 def with_odd_labels(g, rng):
     """the same game with its action names consistently (injectively) replaced by legal strings that contain
-    format / template / quoting characters"""
-    names = sorted({a for pl, row in zip(g["players"], g["transition_list"]) if pl != PR for a, _ in row})
-    pool = list(ODD_LABELS)
-    rng.shuffle(pool)
-    if len(names) > len(pool):
-        pool += [f"{{k{i}}}" for i in range(len(names) - len(pool))]
-    m = dict(zip(names, pool))
+    format / template / quoting characters, surrounding whitespace, or that are canonically equivalent to another
+    label without being equal to it"""
+    m = odd_label_map(g, rng)
     xt = [[((m[l] if isinstance(l, str) else l), t_) for l, t_ in row] for row in exact_tl(g)]
     return finish(g["rewards"], g["players"], xt, g["final_states"], dict(g.get("_meta", {}), odd_labels=True)), m
 
